@@ -146,9 +146,10 @@ HARNESSES = [
     H('history1_L4', h_history, dict(L=4, hist=1), bounds='stream L=4, high in [1,4] symbolic, 1 call, index in [-1,high]'),
     H('history2_L5', h_history, dict(L=5, hist=2), bounds='L=5, high in [1,4], 2 calls sharing one cache'),
     H('history3_L6', h_history, dict(L=6, hist=3, high_max=3), bounds='L=6, high in [1,3], 3 calls sharing one cache'),
-    H('history4_L6', h_history, dict(L=6, hist=4, high_max=4), bounds='L=6, high in [1,4], 4 calls sharing one cache',
+    H('history4_L6', h_history, dict(L=6, hist=4, high_max=2), bounds='L=6, high in [1,2], 4 calls sharing one cache',
       tiers=('thorough',)),
-    H('history3_L8', h_history, dict(L=8, hist=3, high_max=4), bounds='L=8, high in [1,4], 3 calls', tiers=('thorough',)),
+    H('history3_L7', h_history, dict(L=7, hist=3, high_max=3), bounds='L=7, high in [1,3], 3 calls', tiers=('thorough',)),
+    H('history2_L6_high4', h_history, dict(L=6, hist=2, high_max=4), bounds='L=6, high in [1,4], 2 calls', tiers=('thorough',)),
     H('default_high_L4_h2', h_default_high, dict(L=4, hist=2), bounds='high=2**31, L=4, 2 calls, indices in [-1, 2**31]'),
     H('default_high_L6_h3', h_default_high, dict(L=6, hist=3), bounds='high=2**31, L=6, 3 calls', tiers=('thorough',)),
 ]
